@@ -20,11 +20,11 @@ from nverif.engine import Prop, Violation
 from nverif.oracle import taylorfam as tf
 
 EPS = 2.0 ** -52
-K_EST = 100.0         # multiple of the returned error_estimate
-KAPPA = 1.0e4         # multiple of the FFT floor eps * max|f| / R^k
+K_EST = 300.0         # multiple of the returned error_estimate
+KAPPA = 1.0e7         # multiple of the FFT floor eps * max|f| / R^k (final circle)
 SAFETY_MAXF = 1.5     # 256-point sampling of max|f| on the final circle, times this
 REL_DERIV = 4 * EPS   # derivative() == taylor() * k!  (relative)
-EST_ZERO = 1.0        # an estimate below EST_ZERO * eps*max|f|/R^k is "zero" (finding class only)
+EST_ZERO = 100.0      # an estimate below EST_ZERO * eps*max|f|/R^k is "zero" (finding class only)
 DEFAULT_R, DEFAULT_RATIO, DEFAULT_EXTRAP, DEFAULT_MAXITER = 0.0059, 1.6, 3, 30
 EXPLORE = bool(os.environ.get('NVERIF_C17_EXPLORE'))
 
